@@ -182,3 +182,79 @@ Theorem C09_acceptor_examples :
   accepts old_handlers deadlock_trace = true /\ accepts current handler_resume_trace = true.
 Proof. vm_compute. repeat split. Qed.
 Print Assumptions C09_acceptor_examples.
+
+(* ================= Round 8: the full invariant over whole runs (Thread/Runs.v) ================= *)
+From GV Require Import Thread.Runs.
+
+(* The full invariant (baton + Inv2 of Thread/Full.v: bounds, main OK, mutex-holder table, caller links,
+   handler phase, per-pc assertions) is preserved by every action of the code as it stands ... *)
+Theorem C09_inv_step : forall s a s', Baton s /\ Inv2 s -> step current s a = Some s' -> Baton s' /\ Inv2 s'.
+Proof. exact (fun s a s' => fullinv_step current s a s' eq_refl). Qed.
+Print Assumptions C09_inv_step.
+
+(* ... hence by every schedule, from any state satisfying it ... *)
+Theorem C09_inv_run : forall tr s s', Baton s /\ Inv2 s -> run current s tr = Some s' -> Baton s' /\ Inv2 s'.
+Proof. exact (fun tr s s' => fullinv_run current tr s s' eq_refl). Qed.
+Print Assumptions C09_inv_run.
+
+(* ... and it holds in every reachable state (induction over schedules from [init]). *)
+Theorem C09_inv_reachable : forall s, reachable current s -> Baton s /\ Inv2 s.
+Proof. exact (fun s => fullinv_reachable current s eq_refl). Qed.
+Print Assumptions C09_inv_reachable.
+
+(* The round-1 invariant [Inv] of Thread/Inv.v (old order of end: caller attached while locking) is NOT
+   an invariant of the code as it stands — which is why the proofs are about [Inv2]. *)
+Theorem C09_inv_round1_refuted_current : exists s, reachable current s /\ ~ Inv s.
+Proof. exact inv_round1_refuted_current. Qed.
+Print Assumptions C09_inv_round1_refuted_current.
+
+(* LEGAL STATUS TRANSITIONS over whole runs (strengthens C09_status_table from one step to reachable
+   states): the status of an existing thread changes only Suspended -> OK (by another goroutine at the
+   status write R4 of Resume/Close, the target being blocked in its receive), OK -> Suspended (by the
+   thread itself, Yield at Y4) or OK -> Dead (by the thread itself, end at E4). *)
+Theorem C09_status_transitions_legal : forall s a s' t,
+  reachable current s -> step current s a = Some s' -> t < n s -> status (th s' t) <> status (th s t) ->
+  (status (th s t) = Suspended /\ status (th s' t) = OK /\ t <> who a /\ waiting (pc s t) = true /\
+     exists k v, pc s (who a) = R4 k t v) \/
+  (status (th s t) = OK /\ status (th s' t) = Suspended /\ t = who a /\ exists c v, pc s t = Y4 c v) \/
+  (status (th s t) = OK /\ status (th s' t) = Dead /\ t = who a /\ exists c m, pc s t = E4 c m).
+Proof. exact (fun s a s' t => status_transitions_legal current s a s' t eq_refl). Qed.
+Print Assumptions C09_status_transitions_legal.
+
+(* Dead is final along every run. *)
+Theorem C09_dead_forever : forall tr s s' t, reachable current s -> t < n s -> status (th s t) = Dead ->
+  run current s tr = Some s' -> status (th s' t) = Dead /\ t < n s'.
+Proof. exact (fun tr s s' t => dead_forever current tr s s' t eq_refl). Qed.
+Print Assumptions C09_dead_forever.
+
+(* Stability of the Resume/Close guard from the status test to the handover: between the test and the
+   status write the target stays Suspended, blocked in its receive, channel open; from the write to the
+   send it stays OK with the resumer as its caller, still blocked in its receive, channel open. *)
+Theorem C09_resume_target_stable : forall s g, reachable current s ->
+  (forall k t v, pc s g = R3 k t v \/ pc s g = R4 k t v ->
+     status (th s t) = Suspended /\ waiting (pc s t) = true /\ t <> g /\ closed (th s t) = false) /\
+  (forall k t v, pc s g = R5 k t v \/ pc s g = R6 k t v \/ pc s g = R7 k t v ->
+     status (th s t) = OK /\ caller (th s t) = Some g /\ waiting (pc s t) = true /\ t <> g /\
+     closed (th s t) = false).
+Proof. exact (fun s g => resume_target_stable current s g eq_refl). Qed.
+Print Assumptions C09_resume_target_stable.
+
+(* A hand-off send (Resume/Close R7, Yield Y7, end E7) never blocks and never panics: in every reachable
+   state the rendezvous is enabled. *)
+Theorem C09_sends_never_block : forall s g, reachable current s -> sends_to (pc s g) <> None ->
+  exists s', step current s (mkAct g LRdv) = Some s' /\ pc s' g <> Panicked.
+Proof. exact (fun s g => sends_never_block current s g eq_refl). Qed.
+Print Assumptions C09_sends_never_block.
+
+(* No deadlock on schedules: an accepted schedule that has not finished main can always be extended. *)
+Theorem C09_run_extensible : forall tr s, run current init tr = Some s -> main_done s = false ->
+  exists a s', run current init (tr ++ [a]) = Some s'.
+Proof. exact (fun tr s => run_extensible current tr s eq_refl). Qed.
+Print Assumptions C09_run_extensible.
+
+(* non-vacuity of the hypotheses of the two previous theorems *)
+Theorem C09_round8_nonvacuous :
+  exists s, reachable current s /\ pc s 0 = R7 Res 1 5 /\ status (th s 1) = OK /\ caller (th s 1) = Some 0 /\
+            sends_to (pc s 0) <> None.
+Proof. exact resume_target_stable_nonvacuous. Qed.
+Print Assumptions C09_round8_nonvacuous.
